@@ -182,3 +182,25 @@ def replay_deploy(o):
 
 
 REPLAY = {"deploy": replay_deploy}
+
+
+def job_offsets(scale=1):
+    """PyVC contract (all inputs) on ir/compile_ir.py:_runtime_code_offsets:
+         requires ctor_mem_size >= 0, runtime_codelen >= 0
+         ensures  0 <= start, end - start == runtime_codelen, end >= ctor_mem_size
+       hence the immutables section [end, end + n) lies behind the constructor's memory and behind the copied code"""
+    from vyper.ir import compile_ir as CI
+    from vverif.pyvc import Engine
+
+    obs = []
+    m, n = z3.Ints("ctor_mem_size runtime_codelen")
+    pre = z3.And(m >= 0, n >= 0)
+    eng = Engine(asserts="prove")
+    out = eng.run(CI._runtime_code_offsets, [m, n], pre=pre)
+    for (clause, f) in eng.obligations:
+        discharge(obs, "_runtime_code_offsets:" + clause, f, replay={"kind": "deploy", "static": True})
+    discharge(obs, "_runtime_code_offsets:paths-exhaustive", z3.Implies(pre, z3.Or(*[s.pc for s, _ in out.returns])), replay={"kind": "deploy", "static": True})
+    for s_, r in out.returns:
+        start, end = r[0], r[1]
+        discharge(obs, "_runtime_code_offsets:code-fits-behind-no-constructor-memory-is-trampled", z3.Implies(s_.pc, z3.And(start >= 0, end - start == n, end >= m, end >= n)), replay={"kind": "deploy", "static": True})
+    return number(obs)
